@@ -8,6 +8,7 @@ real UnitRegistry/Unit/unyt_array code.  In every reached state the full probe b
 and the three must agree; kept Unit objects must still have the value they had.
 """
 
+import os
 import time
 
 import numpy as np
@@ -407,9 +408,13 @@ class System:
             if ev == ("modself", "s", 2.0) and ev in hist:
                 continue  # once per history: a second rescaling of a base symbol by itself is ill-defined in the library
             if k in ("modf", "modq", "rem") and ev[1] not in w.T:
+                if ev[1] in default_ref():
+                    continue  # 'bar' is also a BUILT-IN unit: editing the built-in row is outside the reference model of user content
                 # edits of symbols that are not user content are only exercised once (must raise)
                 if len(hist) > 0:
                     continue
+            if ("modself", "s", 2.0) in hist and k in ("modq", "modself", "def"):
+                continue  # once the base symbol s is redefined, quantity-valued edits are evaluated through it: not modelled
             evs.append(ev)
         if w.T:
             for ev in self.seeds:
@@ -630,7 +635,7 @@ def run(ctx):
         depth, dev, budget = 4, 2, 240
     else:
         system = System(EDITS_THOROUGH, SEEDS_THOROUGH)
-        depth, dev, budget = 5, 3, 600
+        depth, dev, budget = 5, 3, int(os.environ.get("VERIF_C12_BUDGET", "600"))
     stats = explore.explore(ctx, system, depth, dev, deadline=t0 + budget)
     # second search from a populated registry (foo prefixable, bar commensurable with it): seed / edit / seed
     # orders that need two user symbols to exist do not spend the edit budget on creating them
